@@ -39,7 +39,18 @@ func (o *objectIncludeStrategy) evaluate(m *MethodEvaluator) error {
 	parentFrame, parentNamespace, parentClass :=
 		base.SeparateNameSpaces(nextT.ToString())
 
-	parentFrame = base.CalculateFrame(parentFrame, parentNamespace)
+	if parentFrame == "" && parentNamespace == "" {
+		// an unqualified module is looked up lexically: in the enclosing
+		// namespaces from the innermost outwards, then at the top level
+		parentFrame =
+			base.FindDefinedClassFrame(
+				base.CalculateFrame(m.ctx.GetFrame(), m.ctx.GetClass()),
+				parentClass,
+			)
+	} else {
+		parentFrame = base.CalculateFrame(parentFrame, parentNamespace)
+	}
+
 	var parentNode base.ClassNode
 
 	if m.method == "extend" {
